@@ -153,6 +153,14 @@ FAMILIES = {
               # (with set_dispatch between calls the exhaustive run stays at 4 nodes; depth comes from the simulation)
               "thorough": [dict(mode="bfs", max_nodes=4, split=8), dict(mode="sim", max_nodes=7, min_nodes=3, num=80000, depth=32, procs=12, sharing=True)]},
         shards=[["ds"]], shard_defs={"ds": "SK_ds"}),
+    "tupledispatch": dict(
+        consts=dict(Raises="NoRaises", Kinds="FD_Kinds", Paths="FD_Paths", Consts="FD_Consts", Tmpls="None0",
+                    Fns="None0", Bodies="FD_Bodies", DispVals="FDT_Disp", Preds="None0", Presets="None0",
+                    MapPaths="None0", Leaves="FDT_Leaves", Cbs="FD_Cbs", DispPaths="FD_DispPaths"),
+        sharing=False, hist=2, bfs_consts=dict(Kinds="FD_KindsB", Cbs="FD_CbsB", Leaves="FDT_LeavesB", DispVals="FDT_DispB"),
+        runs={"quick": [dict(mode="bfs", max_nodes=3, split=2), dict(mode="sim", max_nodes=6, min_nodes=3, num=6000, depth=26, procs=6, sharing=True)],
+              "thorough": [dict(mode="bfs", max_nodes=4, split=8), dict(mode="sim", max_nodes=7, min_nodes=3, num=40000, depth=32, procs=12, sharing=True)]},
+        shards=[["ds"]], shard_defs={"ds": "SK_ds"}),
     "classes": dict(
         consts=dict(Raises="NoRaises", Kinds="FL_Kinds", Paths="FL_Paths", Consts="FL_Consts", Tmpls="None0",
                     Fns="None0", Bodies="FL_Bodies", DispVals="NoSeq", Preds="None0", Presets="None0",
